@@ -75,7 +75,8 @@ class Builder(object):
             n = self.ev(z3.Select(self.ex.init_arr('$LEN'), ref)).as_long()
             n = max(0, min(n, MAX_LIST))
             inner = z3.Select(self.ex.init_arr('$ELEM'), ref)
-            d['items'] = [self.desc(z3.Select(inner, i), depth + 1) for i in range(n)]
+            off = self.ev(z3.Select(self.ex.init_arr('$OFF'), ref)).as_long()
+            d['items'] = [self.desc(z3.Select(inner, off + i), depth + 1) for i in range(n)]
             if not issubclass(cls, (list, tuple)) or cls in (list, tuple):
                 return
         if issubclass(cls, (dict, set)):
